@@ -130,6 +130,8 @@ pub enum Finish {
     Drop,
     /// a handler thread panics while holding the request
     Panic,
+    /// respond() with a body of declared length `len` whose reader fails after `after` bytes
+    RespondFailingReader { len: usize, after: usize },
 }
 
 #[derive(Clone, Debug, PartialEq)]
@@ -468,6 +470,36 @@ pub fn finish_request(rq: Request, id: usize, fin: &Finish, ob: &mut ReqObs) {
             drop(rq);
             ob.finish = "drop".into();
         }
+        Finish::RespondFailingReader { len, after } => {
+            struct Failing {
+                left: usize,
+            }
+            impl Read for Failing {
+                fn read(&mut self, buf: &mut [u8]) -> std::io::Result<usize> {
+                    if self.left == 0 {
+                        return Err(std::io::Error::new(std::io::ErrorKind::Other, "verif: the body source fails"));
+                    }
+                    let n = self.left.min(buf.len());
+                    for b in buf[..n].iter_mut() {
+                        *b = b'f';
+                    }
+                    self.left -= n;
+                    Ok(n)
+                }
+            }
+            let resp = Response::new(
+                StatusCode(200),
+                vec![Header::from_bytes(&b"X-Id"[..], id.to_string().as_bytes()).unwrap()],
+                Failing { left: *after },
+                Some(*len),
+                None,
+            );
+            let r = rq.respond(resp);
+            ob.finish = match r {
+                Ok(()) => "respond-failing:ok".into(),
+                Err(e) => format!("respond-failing:err:{:?}", e.kind()),
+            };
+        }
         Finish::Panic => {
             let h = thread::spawn_named(Some("panicking-handler".into()), move || {
                 let _rq = rq;
@@ -671,6 +703,7 @@ pub fn finish_json(f: &Finish) -> Value {
         Finish::Writer { parts, flush } => json!({"writer": {"parts": parts.iter().map(|p| esc(p)).collect::<Vec<_>>(), "flush": flush}}),
         Finish::Upgrade => json!("upgrade"),
         Finish::Drop => json!("drop"),
+        Finish::RespondFailingReader { len, after } => json!({"respond_failing_reader": {"len": len, "after": after}}),
         Finish::Panic => json!("panic"),
     }
 }
@@ -681,6 +714,12 @@ pub fn finish_from_json(v: &Value) -> Finish {
         Some("drop") => return Finish::Drop,
         Some("panic") => return Finish::Panic,
         _ => (),
+    }
+    if let Some(w) = v.get("respond_failing_reader") {
+        return Finish::RespondFailingReader {
+            len: w["len"].as_u64().unwrap_or(64) as usize,
+            after: w["after"].as_u64().unwrap_or(0) as usize,
+        };
     }
     if let Some(w) = v.get("writer") {
         return Finish::Writer {
